@@ -115,12 +115,37 @@ def early_shared(rng):
     return {"family": "gated", "spec": spec, "inputs": {"x": "run:x"}, "kw": {}, "unique_outputs": False, "template": "early-shared"}
 
 
+def sibling_bindings(rng):
+    """Two or three sibling nested graphs that each BIND the same input name on their inner graph - to different values
+    or to the same one - next to (sometimes) a plain node that reads the name too. Output names are unique, so the
+    outcome must not depend on the order of the node list."""
+    n_sub = rng.randint(2, 3)
+    same = rng.random() < 0.25
+    nodes = []
+    for j in range(n_sub):
+        inner = [{"k": "fn", "name": f"w{j}", "params": [{"n": "x"}, {"n": "k"}], "outs": [f"o{j}"]}]
+        if rng.random() < 0.4:
+            inner.append({"k": "fn", "name": f"w{j}b", "params": [{"n": f"o{j}"}, {"n": "k"}], "outs": [f"p{j}"]})
+        nodes.append({"k": "sub", "name": f"wrap{j}", "prog": {"name": f"wrap{j}", "nodes": inner, "bind": {"k": "bound:shared" if same else f"bound:{j}"}}})
+    plain = rng.random() < 0.4
+    if plain:
+        nodes.append({"k": "fn", "name": "plain", "params": [{"n": "k"}], "outs": ["plain_out"]})
+    rng.shuffle(nodes)
+    spec = {"name": "g", "nodes": nodes, "bind": {}}
+    inputs = {"x": "run:x"}
+    if rng.random() < 0.2:
+        inputs["k"] = "run:k"
+    return {"family": "nested", "spec": spec, "inputs": inputs, "kw": {}, "unique_outputs": True, "template": f"sibling-bindings(same={same},plain={plain})"}
+
+
 def pick(rng, names):
     n = rng.choice(names)
     if n == "early-shared":
         return early_shared(rng)
     if n == "compose":
         return compose(rng)
+    if n == "sibling-bindings":
+        return sibling_bindings(rng)
     if n == "nested-entry":
         return nested_entry(rng)
     if n == "rewait":
